@@ -1,23 +1,26 @@
 (* C14 — Ignoring a lint hides that lint, only that lint, and keeps hiding it.
    This file pins the statements; it contains nothing but `exact`.
-   Model: Model/Ignore.v.  `context` = LintContext::from_lint as it is in /repo now;
-   `context_fixed` = the same after fixes/F12.diff + fixes/F13.diff.  `hash` is universally
+   Model: Model/Ignore.v.  `context` = LintContext::from_lint as it is in /repo now, i.e. after the fix
+   commits 8948350 (F12), 4550195 (F13) and 483b7cf (C16-N1); the code before them is `context_old` in
+   History/C14History.v, where the old witnesses are kept as history.  `hash` is universally
    quantified (DefaultHasher); where injectivity matters it is an explicit premise. *)
 Require Import Base Suggestion Ignore ListLemmas IgnoreProofs IgnoreJson IgnoreWitness Tables_lintcontext IgnoreShape.
 From Coq Require Import String.
 From Coq Require Import Permutation.
 
 (* ---------- the model has the shape of the code (table regenerated from /repo on every run) ---------- *)
-(* LintContext hashes (lint_kind, suggestions, message, priority, tokens); from_lint uses the windows and
-   the order that `context` models and does not blank twin_loc; FatToken = (content, kind), Quote carries
-   twin_loc, Number its four fields, every TokenKind variant has a constructor in `tkind`; the JSON key is the model's.
-   THIS THEOREM BREAKS when fixes/F12.diff or fixes/F13.diff is applied: `context` is then no longer
-   the code, and the _refuted theorems below have to move to History (DESIGN.md, section 8). *)
+(* LintContext hashes (lint_kind, suggestions, message, priority, tokens); from_lint uses the window
+   expressions and the order that `context_indices` models and applies to every fat token exactly the
+   blanking that `blank_kind` models (twin_loc, word metadata; the translator raises on any other statement);
+   FatToken = (content, kind), Quote carries twin_loc, Number its four fields, every TokenKind variant has a
+   constructor in `tkind`; the JSON key is the model's.
+   THIS THEOREM BREAKS when one of the fix commits 8948350 / 4550195 / 483b7cf is reverted. *)
 Theorem C14_model_has_the_shape_of_the_code :
   lc_fields = ["lint_kind"; "suggestions"; "message"; "priority"; "tokens"]%string /\
   lc_derives_hash = true /\ lc_built_from_fields = true /\
-  lc_prequel_variant = lc_sequel_variant /\ lc_chain_prequel_problem_sequel = true /\
-  context_v source_variant = context /\
+  lc_chain_prequel_problem_sequel = true /\
+  (forall l d, context_indices_v lc_prequel_variant lc_sequel_variant l d = context_indices l d) /\
+  (forall k, blank_kind_v lc_blanks_twin_loc lc_blanks_word_metadata k = blank_kind k) /\
   fat_token_fields = ["content"; "kind"]%string /\ fat_token_derives_hash = true /\
   quote_fields = ["twin_loc"]%string /\ quote_derives_hash = true /\ token_kind_derives_hash = true /\
   number_fields = ["value"; "suffix"; "radix"; "precision"]%string /\ number_derives_hash = true /\
@@ -28,8 +31,9 @@ Proof. exact code_shape. Qed.
 Check C14_model_has_the_shape_of_the_code :
   lc_fields = ["lint_kind"; "suggestions"; "message"; "priority"; "tokens"]%string /\
   lc_derives_hash = true /\ lc_built_from_fields = true /\
-  lc_prequel_variant = lc_sequel_variant /\ lc_chain_prequel_problem_sequel = true /\
-  context_v source_variant = context /\
+  lc_chain_prequel_problem_sequel = true /\
+  (forall l d, context_indices_v lc_prequel_variant lc_sequel_variant l d = context_indices l d) /\
+  (forall k, blank_kind_v lc_blanks_twin_loc lc_blanks_word_metadata k = blank_kind k) /\
   fat_token_fields = ["content"; "kind"]%string /\ fat_token_derives_hash = true /\
   quote_fields = ["twin_loc"]%string /\ quote_derives_hash = true /\ token_kind_derives_hash = true /\
   number_fields = ["value"; "suffix"; "radix"; "precision"]%string /\ number_derives_hash = true /\
@@ -39,23 +43,39 @@ Check C14_model_has_the_shape_of_the_code :
 Print Assumptions C14_model_has_the_shape_of_the_code.
 
 (* ---------- totality: nothing in the ignore machinery panics on a well-formed document ---------- *)
-Theorem C14_context_total : forall l d, doc_wf d -> exists c, context l d = Ok c.
+Theorem C14_context_total :
+  forall l d, doc_wf d -> exists c, context l d = Ok c.
 Proof. exact context_total. Qed.
-Check C14_context_total : forall l d, doc_wf d -> exists c, context l d = Ok c.
+Check C14_context_total :
+  forall l d, doc_wf d -> exists c, context l d = Ok c.
 Print Assumptions C14_context_total.
+
+(* ---------- what the context is ---------- *)
+(* The tokens from_lint hashes are exactly the property's neighbourhood — the tokens within two characters
+   before the flagged text (fewer at the start of the text), the flagged tokens, the tokens within two
+   characters after its end, each as (kind, text) without partner index / dictionary metadata —
+   flattened into one list; Span::new in the prequel window never panics. *)
+Theorem C14_context_is_the_neighbourhood :
+  forall l d, context_tokens l d = nb_tokens l d /\ context_indices l d = Ok (nb_indices l d).
+Proof. exact (fun l d => conj (context_tokens_nb l d) (context_indices_nb l d)). Qed.
+Check C14_context_is_the_neighbourhood :
+  forall l d, context_tokens l d = nb_tokens l d /\ context_indices l d = Ok (nb_indices l d).
+Print Assumptions C14_context_is_the_neighbourhood.
 
 (* ---------- hides ---------- *)
 (* After any history of ignore operations containing (l, d) — whatever was in the list before,
    whatever is ignored before or after — re-checking d reports neither l nor any lint of d with
    the same context, invents nothing, and nothing panics. *)
-Theorem C14_hides : forall (hash : ctx -> N) s hist l d ls,
+Theorem C14_hides :
+  forall (hash : ctx -> N) s hist l d ls,
   In (l, d) hist ->
   (forall l' d', In (l', d') hist -> doc_wf d') -> doc_wf d ->
   exists s' ls', ignore_all context hash s hist = Ok s' /\ remove_ignored context hash s' ls d = Ok ls' /\
     ~ In l ls' /\ (forall l', context l' d = context l d -> ~ In l' ls') /\
     (forall l', In l' ls' -> In l' ls).
 Proof. exact (fun hash => hides context hash context_total). Qed.
-Check C14_hides : forall (hash : ctx -> N) s hist l d ls,
+Check C14_hides :
+  forall (hash : ctx -> N) s hist l d ls,
   In (l, d) hist ->
   (forall l' d', In (l', d') hist -> doc_wf d') -> doc_wf d ->
   exists s' ls', ignore_all context hash s hist = Ok s' /\ remove_ignored context hash s' ls d = Ok ls' /\
@@ -64,11 +84,13 @@ Check C14_hides : forall (hash : ctx -> N) s hist l d ls,
 Print Assumptions C14_hides.
 
 (* remove_ignored is the order-preserving filter by is_ignored *)
-Theorem C14_remove_is_filter : forall (hash : ctx -> N) s d ls ls',
+Theorem C14_remove_is_filter :
+  forall (hash : ctx -> N) s d ls ls',
   retain_unignored context hash s ls d = Ok ls' ->
   ls' = filter (fun l => match is_ignored context hash s l d with Ok b => negb b | Panic _ => false end) ls.
 Proof. exact (retain_is_filter context). Qed.
-Check C14_remove_is_filter : forall (hash : ctx -> N) s d ls ls',
+Check C14_remove_is_filter :
+  forall (hash : ctx -> N) s d ls ls',
   retain_unignored context hash s ls d = Ok ls' ->
   ls' = filter (fun l => match is_ignored context hash s l d with Ok b => negb b | Panic _ => false end) ls.
 Print Assumptions C14_remove_is_filter.
@@ -76,7 +98,8 @@ Print Assumptions C14_remove_is_filter.
 (* ---------- only ---------- *)
 (* A lint whose context differs from the context of every lint ever ignored is still reported,
    provided the hash function does not collide on those contexts (monitored by the harness). *)
-Theorem C14_only : forall (hash : ctx -> N) hist cs l d c ls s' ls',
+Theorem C14_only :
+  forall (hash : ctx -> N) hist cs l d c ls s' ls',
   contexts_of context hist cs ->
   ignore_all context hash [] hist = Ok s' ->
   (forall l0, In l0 ls -> exists c0, context l0 d = Ok c0) ->
@@ -86,7 +109,8 @@ Theorem C14_only : forall (hash : ctx -> N) hist cs l d c ls s' ls',
   hash_injective_on hash (c :: cs) ->
   In l ls'.
 Proof. exact (only context). Qed.
-Check C14_only : forall (hash : ctx -> N) hist cs l d c ls s' ls',
+Check C14_only :
+  forall (hash : ctx -> N) hist cs l d c ls s' ls',
   contexts_of context hist cs ->
   ignore_all context hash [] hist = Ok s' ->
   (forall l0, In l0 ls -> exists c0, context l0 d = Ok c0) ->
@@ -97,267 +121,139 @@ Check C14_only : forall (hash : ctx -> N) hist cs l d c ls s' ls',
   In l ls'.
 Print Assumptions C14_only.
 
-(* which differences make contexts differ: message, kind, suggestions — and priority, which the
-   property does not list but the code hashes too — and the fat tokens of the code's three windows.
-   NOT in general "the surrounding words": see C14_only_refuted_F13. *)
-Theorem C14_context_differs : forall l d c l' d' c',
+(* which lints share a context, exactly: the same kind, suggestions, message (and priority, which the
+   property does not list but the code hashes too) and the same flattened neighbourhood *)
+Theorem C14_context_same_iff :
+  forall l d c l' d' c',
+  context l d = Ok c -> context l' d' = Ok c' ->
+  (c = c' <-> same_report l l' /\ nb_tokens l d = nb_tokens l' d').
+Proof. exact context_same_iff. Qed.
+Check C14_context_same_iff :
+  forall l d c l' d' c',
+  context l d = Ok c -> context l' d' = Ok c' ->
+  (c = c' <-> same_report l l' /\ nb_tokens l d = nb_tokens l' d').
+Print Assumptions C14_context_same_iff.
+
+(* hence: a difference in message, kind, suggestions (or priority) or in the surrounding tokens — as
+   the flat list before ++ flagged ++ after — makes the contexts differ, and by C14_only the lint is kept *)
+Theorem C14_context_differs :
+  forall l d c l' d' c',
   context l d = Ok c -> context l' d' = Ok c' ->
   il_msg l <> il_msg l' \/ il_kind l <> il_kind l' \/ il_sugg l <> il_sugg l' \/ il_prio l <> il_prio l'
-  \/ context_tokens l d <> context_tokens l' d' ->
+  \/ nb_tokens l d <> nb_tokens l' d' ->
   c <> c'.
 Proof. exact context_differs. Qed.
-Check C14_context_differs : forall l d c l' d' c',
+Check C14_context_differs :
+  forall l d c l' d' c',
   context l d = Ok c -> context l' d' = Ok c' ->
   il_msg l <> il_msg l' \/ il_kind l <> il_kind l' \/ il_sugg l <> il_sugg l' \/ il_prio l <> il_prio l'
-  \/ context_tokens l d <> context_tokens l' d' ->
+  \/ nb_tokens l d <> nb_tokens l' d' ->
   c <> c'.
 Print Assumptions C14_context_differs.
 
-(* two lints of one document that differ in the words after them, hidden together *)
-Theorem C14_only_refuted_F13 :
+(* F13d, still open: "differs in surrounding words" as the property means it — different tokens before,
+   under or after the flagged text (nb_parts) — does NOT always give a different context, because the three
+   windows are hashed as one flat list.  Two lints of one document with the same report that flag different
+   tokens, hidden together for every hash.  (Synthetic lints; never seen with lints of real rules.) *)
+Theorem C14_only_refuted_flat :
   exists d l1 l2,
     doc_wf d /\ same_report l1 l2 /\ il_span l1 <> il_span l2 /\
-    nb_tokens l1 d <> nb_tokens l2 d /\ is_ok (nb_tokens l1 d) = true /\ is_ok (nb_tokens l2 d) = true /\
+    nb_parts l1 d <> nb_parts l2 d /\ is_ok (nb_parts l1 d) = true /\ is_ok (nb_parts l2 d) = true /\
+    window_tokens d (il_span l1) <> window_tokens d (il_span l2) /\
     context l1 d = context l2 d /\
     forall (hash : ctx -> N) s s1, ignore_lint context hash s l1 d = Ok s1 ->
       is_ignored context hash s1 l2 d = Ok true /\
       forall ls ls', remove_ignored context hash s1 ls d = Ok ls' -> ~ In l2 ls'.
-Proof. exact only_refuted_F13. Qed.
-Check C14_only_refuted_F13 :
+Proof. exact only_refuted_flat. Qed.
+Check C14_only_refuted_flat :
   exists d l1 l2,
     doc_wf d /\ same_report l1 l2 /\ il_span l1 <> il_span l2 /\
-    nb_tokens l1 d <> nb_tokens l2 d /\ is_ok (nb_tokens l1 d) = true /\ is_ok (nb_tokens l2 d) = true /\
+    nb_parts l1 d <> nb_parts l2 d /\ is_ok (nb_parts l1 d) = true /\ is_ok (nb_parts l2 d) = true /\
+    window_tokens d (il_span l1) <> window_tokens d (il_span l2) /\
     context l1 d = context l2 d /\
     forall (hash : ctx -> N) s s1, ignore_lint context hash s l1 d = Ok s1 ->
       is_ignored context hash s1 l2 d = Ok true /\
       forall ls ls', remove_ignored context hash s1 ls d = Ok ls' -> ~ In l2 ls'.
-Print Assumptions C14_only_refuted_F13.
+Print Assumptions C14_only_refuted_flat.
 
 (* ---------- export / import ---------- *)
 (* p = the list in the HashSet's iteration order.  The exported text imports into an empty list
    to a duplicate-free list with the same members, and importing it into the list it came from
    (import appends) returns that list unchanged. *)
-Theorem C14_roundtrip : forall s p,
+Theorem C14_roundtrip :
+  forall s p,
   Permutation p s -> Forall (fun h => (h <= u64_max)%N) s ->
   (exists s', import_into [] (run_export p) = Some s' /\ NoDup s' /\ forall h, In h s' <-> In h s) /\
   import_into s (run_export p) = Some s.
 Proof. exact roundtrip. Qed.
-Check C14_roundtrip : forall s p,
+Check C14_roundtrip :
+  forall s p,
   Permutation p s -> Forall (fun h => (h <= u64_max)%N) s ->
   (exists s', import_into [] (run_export p) = Some s' /\ NoDup s' /\ forall h, In h s' <-> In h s) /\
   import_into s (run_export p) = Some s.
 Print Assumptions C14_roundtrip.
 
 (* ---------- keeps hiding it ---------- *)
-(* what is true of the code: equal fat tokens (twin_loc included) in the three windows
-   [s-2,s) (only when s >= 2), [s,e), [s+2,s+4)  ==>  still ignored.  Partial: those windows are not
-   "the tokens within two characters" and fat tokens are not position free. *)
-Theorem C14_stable_partial : forall (hash : ctx -> N) s l d l' d' w s1 hist s2,
-  same_report l l' ->
-  context_tokens l d = Ok w -> context_tokens l' d' = Ok w ->
-  ignore_lint context hash s l d = Ok s1 ->
-  ignore_all context hash s1 hist = Ok s2 ->
-  is_ignored context hash s2 l' d' = Ok true.
-Proof. exact stable_partial. Qed.
-Check C14_stable_partial : forall (hash : ctx -> N) s l d l' d' w s1 hist s2,
-  same_report l l' ->
-  context_tokens l d = Ok w -> context_tokens l' d' = Ok w ->
-  ignore_lint context hash s l d = Ok s1 ->
-  ignore_all context hash s1 hist = Ok s2 ->
-  is_ignored context hash s2 l' d' = Ok true.
-Print Assumptions C14_stable_partial.
-
-(* the property's premise (`untouched`: same report; the position-free tokens before / under / after
-   the flagged text are the same) suffices for every lint OUTSIDE the two known classes *)
-Theorem C14_stable_outside_known : forall l d l' d' b p a,
-  same_report l l' ->
-  nb_parts l d = Ok (b, p, a) -> nb_parts l' d' = Ok (b, p, a) ->
-  no_quote (b ++ p ++ a) ->                                                      (* not F12 *)
-  send (il_span l) = sstart (il_span l) + 2 -> send (il_span l') = sstart (il_span l') + 2 ->   (* not F13 *)
-  (2 <= sstart (il_span l) <-> 2 <= sstart (il_span l')) ->
-  context l d = context l' d'.
-Proof. exact stable_outside_known. Qed.
-Check C14_stable_outside_known : forall l d l' d' b p a,
-  same_report l l' ->
-  nb_parts l d = Ok (b, p, a) -> nb_parts l' d' = Ok (b, p, a) ->
-  no_quote (b ++ p ++ a) ->
-  send (il_span l) = sstart (il_span l) + 2 -> send (il_span l') = sstart (il_span l') + 2 ->
-  (2 <= sstart (il_span l) <-> 2 <= sstart (il_span l')) ->
-  context l d = context l' d'.
-Print Assumptions C14_stable_outside_known.
-
-(* F12: text is prepended, nothing else changes, the contexts differ in twin_loc only, and any hash
-   that tells them apart reports the ignored lint again *)
-Theorem C14_stable_refuted_F12 :
-  exists l d l' d',
-    doc_wf d /\ doc_wf d' /\ untouched l d l' d' /\
-    (exists k, l' = shift_lint k l /\ skipn k (dsrc d') = dsrc d) /\
-    context_f12 l d = context_f12 l' d' /\
-    exists c c', context l d = Ok c /\ context l' d' = Ok c' /\ c <> c' /\
-      forall hash : ctx -> N, hash c <> hash c' ->
-        exists s1, ignore_lint context hash [] l d = Ok s1 /\ is_ignored context hash s1 l' d' = Ok false.
-Proof. exact stable_refuted_F12. Qed.
-Check C14_stable_refuted_F12 :
-  exists l d l' d',
-    doc_wf d /\ doc_wf d' /\ untouched l d l' d' /\
-    (exists k, l' = shift_lint k l /\ skipn k (dsrc d') = dsrc d) /\
-    context_f12 l d = context_f12 l' d' /\
-    exists c c', context l d = Ok c /\ context l' d' = Ok c' /\ c <> c' /\
-      forall hash : ctx -> N, hash c <> hash c' ->
-        exists s1, ignore_lint context hash [] l d = Ok s1 /\ is_ignored context hash s1 l' d' = Ok false.
-Print Assumptions C14_stable_refuted_F12.
-
-(* F13: a one-character lint, no quotation mark around; a word three characters after it is edited *)
-Theorem C14_stable_refuted_F13 :
-  exists l d l' d',
-    doc_wf d /\ doc_wf d' /\ untouched l d l' d' /\ il_span l' = il_span l /\
-    span_len_wf (il_span l) = 1 /\
-    no_quote (match nb_tokens l d with Ok w => w | Panic _ => [] end) /\
-    context_f12 l d <> context_f12 l' d' /\
-    exists c c', context l d = Ok c /\ context l' d' = Ok c' /\ c <> c' /\
-      forall hash : ctx -> N, hash c <> hash c' ->
-        exists s1, ignore_lint context hash [] l d = Ok s1 /\ is_ignored context hash s1 l' d' = Ok false.
-Proof. exact stable_refuted_F13. Qed.
-Check C14_stable_refuted_F13 :
-  exists l d l' d',
-    doc_wf d /\ doc_wf d' /\ untouched l d l' d' /\ il_span l' = il_span l /\
-    span_len_wf (il_span l) = 1 /\
-    no_quote (match nb_tokens l d with Ok w => w | Panic _ => [] end) /\
-    context_f12 l d <> context_f12 l' d' /\
-    exists c c', context l d = Ok c /\ context l' d' = Ok c' /\ c <> c' /\
-      forall hash : ctx -> N, hash c <> hash c' ->
-        exists s1, ignore_lint context hash [] l d = Ok s1 /\ is_ignored context hash s1 l' d' = Ok false.
-Print Assumptions C14_stable_refuted_F13.
-
-(* F13e: a lint at offset 1 has no prequel window; a Markdown paragraph put in front gives it one *)
-Theorem C14_stable_refuted_prequel :
-  exists l d l' d',
-    doc_wf d /\ doc_wf d' /\ untouched l d l' d' /\
-    (exists k, l' = shift_lint k l /\ skipn k (dsrc d') = dsrc d) /\
-    sstart (il_span l) = 1 /\
-    no_quote (match nb_tokens l d with Ok w => w | Panic _ => [] end) /\
-    context_fixed l d = context_fixed l' d' /\
-    exists c c', context l d = Ok c /\ context l' d' = Ok c' /\ c <> c' /\
-      forall hash : ctx -> N, hash c <> hash c' ->
-        exists s1, ignore_lint context hash [] l d = Ok s1 /\ is_ignored context hash s1 l' d' = Ok false.
-Proof. exact stable_refuted_prequel. Qed.
-Check C14_stable_refuted_prequel :
-  exists l d l' d',
-    doc_wf d /\ doc_wf d' /\ untouched l d l' d' /\
-    (exists k, l' = shift_lint k l /\ skipn k (dsrc d') = dsrc d) /\
-    sstart (il_span l) = 1 /\
-    no_quote (match nb_tokens l d with Ok w => w | Panic _ => [] end) /\
-    context_fixed l d = context_fixed l' d' /\
-    exists c c', context l d = Ok c /\ context l' d' = Ok c' /\ c <> c' /\
-      forall hash : ctx -> N, hash c <> hash c' ->
-        exists s1, ignore_lint context hash [] l d = Ok s1 /\ is_ignored context hash s1 l' d' = Ok false.
-Print Assumptions C14_stable_refuted_prequel.
-
-(* hence the property's third sentence, as a statement about the code, is false — also with F12's repair alone *)
-Theorem C14_stays_ignored_refuted : ~ stays_ignored context /\ ~ stays_ignored context_f12.
-Proof. exact stays_ignored_refuted. Qed.
-Check C14_stays_ignored_refuted : ~ stays_ignored context /\ ~ stays_ignored context_f12.
-Print Assumptions C14_stays_ignored_refuted.
-
-(* ---------- the repaired context: full strength ---------- *)
-Theorem C14_stable_fixed : forall (hash : ctx -> N) s l d l' d' s1 hist s2,
+(* The property's third sentence at full strength (stays_ignored, IgnoreProofs.v): whatever the hash
+   function, whatever was in the list and whatever is ignored afterwards — if the report is the same and the
+   tokens before / under / after the flagged text are untouched (`untouched`: the property's premise, three
+   position-free lists), the lint of the edited document is still ignored.  No side condition on quotation
+   marks, span length or offset any more (F12, F13, F13e, C16-N1 are repaired). *)
+Theorem C14_stable :
+  forall (hash : ctx -> N) s l d l' d' s1 hist s2,
   doc_wf d -> doc_wf d' -> untouched l d l' d' ->
-  ignore_lint context_fixed hash s l d = Ok s1 -> ignore_all context_fixed hash s1 hist = Ok s2 ->
-  is_ignored context_fixed hash s2 l' d' = Ok true.
-Proof. exact stable_fixed. Qed.
-Check C14_stable_fixed : forall (hash : ctx -> N) s l d l' d' s1 hist s2,
+  ignore_lint context hash s l d = Ok s1 -> ignore_all context hash s1 hist = Ok s2 ->
+  is_ignored context hash s2 l' d' = Ok true.
+Proof. exact stable. Qed.
+Check C14_stable :
+  forall (hash : ctx -> N) s l d l' d' s1 hist s2,
   doc_wf d -> doc_wf d' -> untouched l d l' d' ->
-  ignore_lint context_fixed hash s l d = Ok s1 -> ignore_all context_fixed hash s1 hist = Ok s2 ->
-  is_ignored context_fixed hash s2 l' d' = Ok true.
-Print Assumptions C14_stable_fixed.
+  ignore_lint context hash s l d = Ok s1 -> ignore_all context hash s1 hist = Ok s2 ->
+  is_ignored context hash s2 l' d' = Ok true.
+Print Assumptions C14_stable.
 
-Theorem C14_hides_fixed : forall (hash : ctx -> N) s hist l d ls,
-  In (l, d) hist ->
-  (forall l' d', In (l', d') hist -> doc_wf d') -> doc_wf d ->
-  exists s' ls', ignore_all context_fixed hash s hist = Ok s' /\ remove_ignored context_fixed hash s' ls d = Ok ls' /\
-    ~ In l ls' /\ (forall l', context_fixed l' d = context_fixed l d -> ~ In l' ls') /\
-    (forall l', In l' ls' -> In l' ls).
-Proof. exact (fun hash => hides context_fixed hash context_fixed_total). Qed.
-Check C14_hides_fixed : forall (hash : ctx -> N) s hist l d ls,
-  In (l, d) hist ->
-  (forall l' d', In (l', d') hist -> doc_wf d') -> doc_wf d ->
-  exists s' ls', ignore_all context_fixed hash s hist = Ok s' /\ remove_ignored context_fixed hash s' ls d = Ok ls' /\
-    ~ In l ls' /\ (forall l', context_fixed l' d = context_fixed l d -> ~ In l' ls') /\
-    (forall l', In l' ls' -> In l' ls).
-Print Assumptions C14_hides_fixed.
-
-Theorem C14_only_fixed : forall (hash : ctx -> N) hist cs l d c ls s' ls',
-  contexts_of context_fixed hist cs ->
-  ignore_all context_fixed hash [] hist = Ok s' ->
-  (forall l0, In l0 ls -> exists c0, context_fixed l0 d = Ok c0) ->
-  remove_ignored context_fixed hash s' ls d = Ok ls' ->
-  In l ls -> context_fixed l d = Ok c ->
-  ~ In c cs ->
-  hash_injective_on hash (c :: cs) ->
-  In l ls'.
-Proof. exact (only context_fixed). Qed.
-Check C14_only_fixed : forall (hash : ctx -> N) hist cs l d c ls s' ls',
-  contexts_of context_fixed hist cs ->
-  ignore_all context_fixed hash [] hist = Ok s' ->
-  (forall l0, In l0 ls -> exists c0, context_fixed l0 d = Ok c0) ->
-  remove_ignored context_fixed hash s' ls d = Ok ls' ->
-  In l ls -> context_fixed l d = Ok c ->
-  ~ In c cs ->
-  hash_injective_on hash (c :: cs) ->
-  In l ls'.
-Print Assumptions C14_only_fixed.
-
-(* with the repaired context "differs in surrounding words" does mean "different context" *)
-Theorem C14_fixed_differs : forall l d c l' d' c',
-  context_fixed l d = Ok c -> context_fixed l' d' = Ok c' ->
-  il_msg l <> il_msg l' \/ il_kind l <> il_kind l' \/ il_sugg l <> il_sugg l' \/ il_prio l <> il_prio l'
-  \/ nb_tokens l d <> nb_tokens l' d' ->
-  c <> c'.
-Proof. exact context_fixed_differs. Qed.
-Check C14_fixed_differs : forall l d c l' d' c',
-  context_fixed l d = Ok c -> context_fixed l' d' = Ok c' ->
-  il_msg l <> il_msg l' \/ il_kind l <> il_kind l' \/ il_sugg l <> il_sugg l' \/ il_prio l <> il_prio l'
-  \/ nb_tokens l d <> nb_tokens l' d' ->
-  c <> c'.
-Print Assumptions C14_fixed_differs.
+(* the same text parsed again with another dictionary (other word metadata) or with quotation marks
+   paired differently: every ignored lint stays ignored, wherever it is *)
+Theorem C14_stable_dictionary :
+  forall (hash : ctx -> N) s l d d' s1 hist s2,
+  blank_doc d = blank_doc d' ->
+  ignore_lint context hash s l d = Ok s1 -> ignore_all context hash s1 hist = Ok s2 ->
+  is_ignored context hash s2 l d' = Ok true.
+Proof. exact stable_dictionary. Qed.
+Check C14_stable_dictionary :
+  forall (hash : ctx -> N) s l d d' s1 hist s2,
+  blank_doc d = blank_doc d' ->
+  ignore_lint context hash s l d = Ok s1 -> ignore_all context hash s1 hist = Ok s2 ->
+  is_ignored context hash s2 l d' = Ok true.
+Print Assumptions C14_stable_dictionary.
 
 (* ---------- non-vacuity ---------- *)
-(* the premises of hides / stable_fixed / stable_outside_known are satisfiable on real documents:
-   the three witness documents are well formed, the F12 and F13 pairs satisfy `untouched`, and the
-   repaired context keeps both ignored while telling the two `recieve` lints apart *)
-Example C14_nonvacuous_docs :
-  doc_wf f12_d1 /\ doc_wf f12_d2 /\ untouched f12_l1 f12_d1 f12_l2 f12_d2 /\ untouched f13s_l1 f13s_d1 f13s_l2 f13s_d2 /\
-  context_fixed f12_l1 f12_d1 = context_fixed f12_l2 f12_d2 /\
-  context_fixed f13s_l1 f13s_d1 = context_fixed f13s_l2 f13s_d2 /\
-  context_fixed f13o_l1 f13o_d1 <> context_fixed f13o_l2 f13o_d1.
+(* the premises of hides / stable / stable_dictionary are satisfiable on real documents, and the witnesses
+   of the repaired findings (regression inputs of corpus/C14; History/C14History.v proves that the OLD context
+   broke the property on each of them) are now handled as the property asks: the F12, F13 and F13e pairs
+   satisfy `untouched` and keep their context, the two `recieve` lints are told apart, and the text parsed
+   under two dictionaries gives two different documents with the same context *)
+Example C14_regression_witnesses :
+  doc_wf f12_d1 /\ doc_wf f12_d2 /\ untouched f12_l1 f12_d1 f12_l2 f12_d2 /\ context f12_l1 f12_d1 = context f12_l2 f12_d2 /\
+  untouched f13s_l1 f13s_d1 f13s_l2 f13s_d2 /\ context f13s_l1 f13s_d1 = context f13s_l2 f13s_d2 /\
+  untouched f13e_l1 f13e_d1 f13e_l2 f13e_d2 /\ context f13e_l1 f13e_d1 = context f13e_l2 f13e_d2 /\
+  context f13o_l1 f13o_d1 <> context f13o_l2 f13o_d1 /\
+  dict_d1 <> dict_d2 /\ blank_doc dict_d1 = blank_doc dict_d2 /\ context dict_l dict_d1 = context dict_l dict_d2 /\
+  is_ok (context dict_l dict_d1) = true.
 Proof.
-  split; [apply f12_wf|]. split; [apply f12_wf|]. split; [apply f12_untouched|]. split; [apply f13s_untouched|].
-  split; [apply f12_fixed_same|]. split; [apply f13s_fixed_same|]. apply f13o_fixed_differ.
+  split; [apply f12_wf|]. split; [apply f12_wf|]. split; [apply f12_untouched|]. split; [apply f12_same|].
+  split; [apply f13s_untouched|]. split; [apply f13s_same|]. split; [apply f13e_untouched|]. split; [apply f13e_same|].
+  split; [apply f13o_differ|]. split; [apply dict_docs_differ|]. split; [apply dict_same_blank|]. split; [apply dict_same|].
+  vm_compute; reflexivity.
 Qed.
 
-(* the context of the F12 lint: prequel = (space, quote -> 8), problem = `an`, sequel = (space, `problem`) *)
+(* the context of the F12 lint: prequel = (space, quote), problem = `an`, sequel = (space, `problem`); of the
+   first `recieve`: (`we`, space), `recieve`, (space, `it`); at the start of the text the prequel is empty *)
 Example C14_context_indices_example :
-  context_indices f12_l1 f12_d1 = [3; 4; 5; 6; 7] /\ context_indices f13o_l1 f13o_d1 = [0; 1; 2; 2] /\
-  context_indices (mkilint (mkspan 0 3) 0%N [] [] 0%N) f13o_d1 = [0; 1; 1; 2].
+  context_indices f12_l1 f12_d1 = Ok [3; 4; 5; 6; 7] /\ context_indices f13o_l1 f13o_d1 = Ok [0; 1; 2; 3; 4] /\
+  context_indices (mkilint (mkspan 0 3) 0%N [] [] 0%N) f13o_d1 = Ok [0; 1; 2] /\
+  context_indices (mkilint (mkspan 1 7) 0%N [] [] 0%N) f13e_d1 = Ok [0; 1; 2; 3].
 Proof. repeat split; vm_compute; reflexivity. Qed.
-
-(* stable_outside_known is not vacuous: a two-character lint away from quotation marks, text prepended *)
-Example C14_outside_known_example :
-  let d := mkdoc [111; 102; 32; 97; 110; 32; 97; 112; 101]%N
-             [mktok (mkspan 0 2) (KWord (Some 1%N)); mktok (mkspan 2 3) (KSpace 1); mktok (mkspan 3 5) (KWord (Some 2%N));
-              mktok (mkspan 5 6) (KSpace 1); mktok (mkspan 6 9) (KWord (Some 3%N))] in
-  let d' := mkdoc [79; 104; 46; 32; 111; 102; 32; 97; 110; 32; 97; 112; 101]%N
-             [mktok (mkspan 0 2) (KWord (Some 9%N)); mktok (mkspan 2 3) (KPunct 7%N); mktok (mkspan 3 4) (KSpace 1);
-              mktok (mkspan 4 6) (KWord (Some 1%N)); mktok (mkspan 6 7) (KSpace 1); mktok (mkspan 7 9) (KWord (Some 2%N));
-              mktok (mkspan 9 10) (KSpace 1); mktok (mkspan 10 13) (KWord (Some 3%N))] in
-  let l := mkilint (mkspan 3 5) 8%N [ReplaceWith [97]%N] [120]%N 31%N in
-  let l' := shift_lint 4 l in
-  exists b p a, nb_parts l d = Ok (b, p, a) /\ nb_parts l' d' = Ok (b, p, a) /\ no_quote (b ++ p ++ a) /\
-    context l d = context l' d' /\ is_ok (context l d) = true.
-Proof.
-  cbv zeta. eexists _, _, _. split; [vm_compute; reflexivity|]. split; [vm_compute; reflexivity|].
-  split; [repeat constructor; intros t; discriminate|]. split; vm_compute; reflexivity.
-Qed.
 
 (* export / import on concrete u64 values, the largest included *)
 Example C14_roundtrip_example :
